@@ -117,6 +117,18 @@ def apply_patch_overlay(repo, patch_path) -> Optional[Dict[str, str]]:
         shutil.rmtree(tmp, ignore_errors=True)
 
 
+def refactor_variants() -> List[Tuple[str, str]]:
+    """Independent behaviour-preserving refactors (/verif/refactors/<id>/patch.diff): every property must stay silent."""
+    out = []
+    rdir = os.path.join(VERIF, "refactors")
+    if os.path.isdir(rdir):
+        for name in sorted(os.listdir(rdir)):
+            patch_p = os.path.join(rdir, name, "patch.diff")
+            if os.path.exists(patch_p):
+                out.append((name, patch_p))
+    return out
+
+
 def run_seeded(args):
     prop, repo, name, patch_p, base = args
     ov = apply_patch_overlay(repo, patch_p)
@@ -135,13 +147,16 @@ def sweep(prop: str, repo: str, jobs: int = 16, verbose=False) -> dict:
     twins = TWINS.get(prop, [])
     tasks = [(prop, repo, m["id"], m["edits"], base) for m in muts] + [(prop, repo, t["id"], t["edits"], base) for t in twins]
     seeded = seeded_variants(prop, repo)
+    refactors = refactor_variants()
     res = {}
-    if tasks or seeded:
+    if tasks or seeded or refactors:
         with ProcessPoolExecutor(max_workers=jobs) as ex:
             for vid, status, detail in ex.map(run_variant, tasks):
                 res[vid] = (status, detail)
             for name, status, detail in ex.map(run_seeded, [(prop, repo, n, p, base) for n, p, _ in seeded]):
                 res["seeded:" + name] = (status, detail)
+            for name, status, detail in ex.map(run_seeded, [(prop, repo, n, p, base) for n, p in refactors]):
+                res["refactor:" + name] = (status, detail)
     killed, missed, wrong_rule, skipped = [], [], [], []
     for m in muts:
         status, detail = res[m["id"]]
@@ -165,6 +180,14 @@ def sweep(prop: str, repo: str, jobs: int = 16, verbose=False) -> dict:
             skipped.append(t["id"])
         else:
             twin_alarm.append((t["id"], status, detail[:2]))
+    for n, _ in refactors:
+        status, detail = res["refactor:" + n]
+        if status == "silent":
+            twin_silent.append("refactor:" + n)
+        elif status == "skipped":
+            skipped.append("refactor:" + n)
+        else:
+            twin_alarm.append(("refactor:" + n, status, detail[:2]))
     seeded_caught = [n for n, _, _ in seeded if res.get("seeded:" + n, ("",))[0] == "violation"]
     seeded_missed = [n for n, _, _ in seeded if res.get("seeded:" + n, ("",))[0] not in ("violation", "skipped")]
     out = {
@@ -173,7 +196,8 @@ def sweep(prop: str, repo: str, jobs: int = 16, verbose=False) -> dict:
             "mutants_killed": len(killed),
             "mutants_missed": missed,
             "mutants_reported_by_other_rule": wrong_rule,
-            "twins": len(twins),
+            "twins": len(twins) + len(refactors),
+            "independent_refactors": [n for n, _ in refactors],
             "twins_silent": len(twin_silent),
             "twin_alarms": twin_alarm,
             "seeded_changes": [n for n, _, _ in seeded],
